@@ -174,13 +174,28 @@ class _SetSpy:
         rb, wb = cache.read_block, cache.write_block
         log = self.log
 
+        def way_of(st, values, tag):
+            # which way did the set use?  by identity of the block's word list, else by tag
+            for j, b in enumerate(st.blocks):
+                if values is not None and b.values is values:
+                    return j
+            for j, b in enumerate(st.blocks):
+                if b.valid_bit and b.decoded_address.tag == tag:
+                    return j
+            return None
+
         def read_block(da, _rb=rb):
-            log.append(("RB", da.cache_set_index, da.tag))
-            return _rb(da)
+            out = _rb(da)
+            k = da.cache_set_index
+            log.append(("RB", k, da.tag, out is not None, way_of(cache.sets[k], out, da.tag) if out is not None else None))
+            return out
 
         def write_block(da, values, _wb=wb):
-            log.append(("WB", da.cache_set_index, da.tag))
-            return _wb(da, values)
+            out = _wb(da, values)
+            k = da.cache_set_index
+            hit = bool(out[0]) if isinstance(out, tuple) else None
+            log.append(("WB", k, da.tag, hit, way_of(cache.sets[k], values, da.tag)))
+            return out
 
         cache.read_block = read_block
         cache.write_block = write_block
@@ -430,27 +445,31 @@ def exec_cache(trace, prop) -> Result:
                 c10_sets.clear()
                 spy.attach(sut)
                 spy.log.clear()
-            for (what, k, tag) in spy.log:
+            for (what, k, tag, hit, way) in spy.log:
+                # the set's own answer (hit / miss, which way) is taken as observed - whether the lookup is right
+                # is C03's / C09's business; the policy must (a) have chosen the way of every fill and (b) be
+                # informed of every hit and fill
                 ms = c10_sets[k]
-                w = ms.find(tag)
-                if w is not None:
-                    ms.policy.touch(w)
+                if hit and way is not None:
+                    ms.policy.touch(way)
+                    ms.tags[way] = tag
                     res.probes["policy touch on " + ("read hit" if what == "RB" else "write hit")] += 1
-                elif what == "WB":
+                elif what == "WB" and way is not None:
                     v = ms.policy.victim()
+                    if way != v:
+                        res.violate("C10", "wrong-victim", at=i, expected=v, got=way, op=op, set=k, policy_state=ms.policy.repr(),
+                                    note="the way a fill went into is not the way the policy designates")
+                        break
                     res.probes["fill" + (" displacing a valid block" if ms.tags[v] is not None else " into an invalid way")] += 1
                     ms.tags[v] = tag
                     ms.policy.touch(v)
+            if res.violations:
+                break
             n_acc = len(spy.log)
             spy.log.clear()
             post = impl_sets(sut, idxs)
             for k, (blocks, rep) in post.items():
                 ms = c10_sets[k]
-                got_tags = [t if v else None for v, t in blocks]
-                if got_tags != ms.tags:
-                    res.violate("C10", "wrong-victim", at=i, expected=ms.tags, got=got_tags, op=op, set=k,
-                                note="ways holding the blocks after the recorded fills differ from the policy's victims")
-                    break
                 if [bool(x) if cfg["strat"] == "plru" else int(x) for x in rep] != ms.policy.repr():
                     res.violate("C10", "policy-state" if n_acc else "policy-state-changed-without-a-block-access", at=i,
                                 expected=ms.policy.repr(), got=list(rep), op=op, set=k)
@@ -479,11 +498,16 @@ def exec_cache(trace, prop) -> Result:
                 # the table row must show the backing word - rendered with the repository's own formatter,
                 # so that a formatter defect (C17) cannot surface under C12's name
                 fmt = m["get_n_bit_representations"]
+                rw_all = resident_words(sut, idxs)
                 for wa in sorted(touched):
                     if wa in rep:
-                        want_row = list(fmt(backing_word(sut, wa), 32))
-                        if list(rep[wa]) != want_row:
-                            res.violate("C12", "memory-table-differs-from-backing-store", at=i, expected=want_row, got=list(rep[wa]), word=wa)
+                        # "always current under write-through, may lag under write-back only for resident blocks": the row
+                        # shows the logical value, or - for a resident word under write-back - the lagging backing value
+                        allowed = [list(fmt(model.read(wa, 4), 32))]
+                        if cfg["kind"] == "wb" and wa in rw_all:
+                            allowed.append(list(fmt(backing_word(sut, wa), 32)))
+                        if list(rep[wa]) not in allowed:
+                            res.violate("C12", "memory-table-not-current", at=i, expected=allowed, got=list(rep[wa]), word=wa)
                             break
                 if res.violations:
                     break
